@@ -111,7 +111,7 @@ NOT_APPLICABLE = {
     "C06": "hand-off spans VM -> output -> printer -> parser -> loader -> convert -> VM; both ends are the abstract VM (the printer/parser middle is decided under C05, the pickle middle under C12)",
     "C07": "solver.cc is a memoised backtracking search over std::set/unordered_map/deque and a unique_ptr trie; pointer-rich heap containers whose primitives live in libstdc++.so outside the emitted IR; no KLEE/CBMC-class engine is installed and the IR interpreter built for C09 handles flat arrays only",
     "C08": "same code as C07 plus the Python binding; cache invalidation cannot be decided without encoding the solver itself",
-    "C14": "operator dispatch, attribute lookup and call checking run inside the VM against the parsed builtins stub; inputs are programs and the oracle is executing them - nothing symbolic survives",
+    "C14": "operator dispatch, attribute lookup and call checking run inside the VM against the parsed builtins stub; inputs are programs and the oracle is executing them. A dispatch-level harness (vm_utils.call_binary_operator / load_attr / call_function_with_state called directly on objects from a set-up run) was built and dropped: it does not reproduce the real pipeline's verdicts (e.g. [1][int] is flagged by the VM, not by the kernel call), so it would misrepresent the code",
     "C15": "quantifies over source texts through compile -> blocks -> VM -> output; only the block-graph stage has an encodable kernel, claimed under C16",
     # Planned in DESIGN.md; listed here until their check is committed:
 }
